@@ -16,7 +16,8 @@ EXPLANATION = (
     "of silently dropped peers are NOT decided."
     " callback-kept: ContextRefOps::on_connect reads the listener callback and never takes or replaces it, so later on_error / on_finish still reach the listener's session clean-up."
     " session-released: terminal callbacks of listeners with a session table remove the client's entry on every path."
-    ' send-error: in every FrameWriter::write no successful return is reachable from the Err edge of the transport send (a tunnel on a lost shared QUIC connection fails instead of discarding frames).')
+    ' send-error: in every FrameWriter::write no successful return is reachable from the Err edge of the transport send (a tunnel on a lost shared QUIC connection fails instead of discarding frames).'
+    " dns-ttl: the resolver's cache-lifetime options are not overridden (an origin that returns on another address is found as soon as its record says so).")
 RULE_TEXT = "instances = connector impls, connector struct fields, cache-invalidation edges"
 TRUSTED = ["quinn reports a dead connection as an error of open_bi()", "TCP connect fails for an unreachable upstream"]
 NOT_DECIDED = ["bounded time and number of attempts to recover", "detection of silently dropped peers (keep-alive 30 s / idle 3600 s are constants the check prints but cannot judge)",
@@ -147,10 +148,48 @@ def rule_send_errors(chk, prog, rule="send-error"):
 
 
 
+
+def rule_dns_ttl(chk, prog, rule="dns-ttl"):
+    """An origin that comes back on another address after an outage is reachable again as soon as its DNS record says so: the direct
+    connector resolves the name for every connection, and the resolver's cache honours the record's TTL.  No code of the proxy pins
+    answers beyond their TTL: the cache-lifetime fields of trust-dns' ResolverOpts (positive_min_ttl / negative_min_ttl /
+    positive_max_ttl / negative_max_ttl) are not assigned anywhere (none expected; resolver construction sites are the floor)."""
+    n = 0
+    built = 0
+    for f in sorted(prog.fns.values(), key=lambda x: x.key):
+        if f.crate != "redproxy_rs":
+            continue
+        for c in f.calls:
+            if re.search(r"AsyncResolver::<.*>::(tokio|new|tokio_from_system_conf)$|AsyncResolver.*::tokio$", c.path or ""):
+                built += 1
+        for b in sorted(f.reachable):
+            for st in f.stmts(b):
+                if st["k"] != "assign":
+                    continue
+                flds = [x for x in st["lhs"][1:] if isinstance(x, str) and re.match(r"f:(positive|negative)_(min|max)_ttl$", x)]
+                if not flds or "ResolverOpts" not in f.local_ty_s(st["lhs"][0]):
+                    continue
+                # assigning None restores the default
+                rv = st["rv"]
+                if rv["k"] == "agg" and rv.get("variant") == "None":
+                    continue
+                n += 1
+                where = "%s:%s" % (f.file, f.blocks[b].get("sp", {}).get("l", f.line))
+                chk.instance(rule, where, "%s overrides %s of the resolver" % (f.path, flds[0][2:]), False)
+                chk.finding(rule, f.key, flds[0][2:], "", where,
+                            "%s overrides the resolver's %s: resolved addresses are kept (or refused) regardless of the record's TTL, so an "
+                            "origin that returns on another address after an outage stays unreachable through the direct connector until the "
+                            "proxy is restarted" % (f.path, flds[0][2:]))
+    chk.instance(rule, "src/common/dns.rs", "the resolver honours record TTLs (no cache-lifetime override)", n == 0, "%d resolver construction site(s)" % built, nontrivial=False)
+    chk.floor(rule, built, 1, "resolver construction sites")
+
+
+
 def run(chk, prog):
     rule_callback_kept(chk, prog)
     rule_session_released(chk, prog)
     rule_send_errors(chk, prog)
+    rule_dns_ttl(chk, prog)
     impls = [k for k in prog.impls_of.get("redproxy_rs::connectors::Connector::connect", [])]
     chk.floor("dialing", len(impls), 5 if "quic" in prog.features else 4, "Connector::connect impls")
     for k in impls:
